@@ -131,13 +131,29 @@ theorem C05_scalar_fallback_eq (freqs times x : List ℝ) (H : ℝ → Cx) (fr :
   · simp only [filterFrequencies]
     rw [DftModel.getFilterResponse_vec_irrelevant]
 
-/-- `FunctionSignal._apply_filters` with a single filter computes exactly `Signal.filter_frequencies`, so all
-theorems above hold for function-backed signals carrying one filter (stacked filters multiply their response
-tables first; that case is covered by the correspondence run) -/
+/-- `FunctionSignal._apply_filters` with a single filter computes exactly `Signal.filter_frequencies` … -/
 theorem C05_apply_filters_single (times vals : List ℝ) (H : ℝ → Cx) (fr vec : Bool)
     (ht : times.length = vals.length) :
     applyFilters vals (sigDt times) [(H, fr, vec)] = filterFrequencies times vals H fr vec :=
   DftApply.apply_filters_single times vals H fr vec ht
+
+/-- … and with several stacked filters sharing the `force_real` flag it computes `filter_frequencies` for the
+PRODUCT of the response functions (the code multiplies the response tables), so every theorem above holds for
+function-backed signals with any number of such filters -/
+theorem C05_apply_filters_stacked (times vals : List ℝ) (filters : List ((ℝ → Cx) × Bool × Bool)) (fr : Bool)
+    (hfr : ∀ flt ∈ filters, flt.2.1 = fr) (ht : times.length = vals.length) :
+    applyFilters vals (sigDt times) filters
+      = filterFrequencies times vals
+          (fun f => filters.foldl (fun a flt => cmul a (flt.1 f)) ((1, 0) : Cx)) fr true :=
+  DftApply.apply_filters_stacked times vals filters fr hfr ht
+
+/-- without `force_real` the filter is homogeneous in the response for COMPLEX factors before the real part is
+taken: every sample of the complex output for `c·H` is `c` times that for `H` -/
+theorem C05_filter_homog_complex (x : List ℝ) (c : Cx) (H : ℝ → Cx) (dt : ℝ) (vec : Bool) (k : ℕ)
+    (hk : k < 2 * x.length) :
+    (filterCore x (getFilterResponse (fftfreqs (2 * x.length) dt) (fun f => cmul c (H f)) false vec)).getD k 0
+      = cmul c ((filterCore x (getFilterResponse (fftfreqs (2 * x.length) dt) H false vec)).getD k 0) :=
+  DftApply.filter_homog_complex x c H dt vec k hk
 
 /-! ### non-vacuity: concrete instances of the hypotheses and of the K1 wrap-around -/
 
